@@ -226,6 +226,59 @@ func main() {
 const c13Path = "example.com/m"
 
 // c13Engine installs a go list result for one package whose only file is src.
+// c13OtherSrc is a second package of the module; it repeats names that the
+// packages under test declare, which must not confuse anyone: names are hashed
+// per package.
+const c13OtherSrc = `package other
+
+func O() {}
+
+func New() {}
+
+func helper() {}
+
+func run() {}
+
+func first() {}
+
+type Point struct{ X int }
+
+type config struct{}
+
+type Queue struct{}
+
+type Tree struct{}
+
+type List struct{}
+
+type machine struct{}
+
+type logger struct{}
+`
+
+// c13OtherNames are the package-level names of c13OtherSrc.
+var c13OtherNames = []string{"O", "New", "helper", "run", "first", "Point", "config", "Queue", "Tree", "List", "machine", "logger"}
+
+// c13AskOther adds the names the build gives the declarations of the other
+// package to what garble reverse is asked about.
+func c13AskOther(ask, want []string, orig map[*ast.Ident]string) ([]string, []string) {
+	other, _ := sharedCache.ListedPackages.get(c13Path + "/other")
+	if other == nil || !other.ToObfuscate {
+		return ask, want
+	}
+	declared := make(map[string]bool)
+	for _, n := range orig {
+		declared[n] = true
+	}
+	for _, n := range c13OtherNames {
+		if declared[n] || n == "O" { // the names both packages declare, and one only this one does
+			ask = append(ask, hashWithPackage(other, n))
+			want = append(want, n)
+		}
+	}
+	return ask, want
+}
+
 // c13Tag is a build tag given to every command; c13Tagged is the file it enables.
 const c13Tag = "-tags=c13tag"
 
@@ -233,7 +286,7 @@ func c13Tagged(pkgName string) string {
 	return "//go:build c13tag\n\npackage " + pkgName + "\n\nvar Tagged struct{ On bool }\n"
 }
 
-func c13Engine(pkgName, src string, toObfuscate bool, id []byte) *listedPackage {
+func c13Engine(pkgName, src string, toObfuscate bool, id, id2 []byte) *listedPackage {
 	dir := symx.FSRoot() + "/m"
 	symx.FSMkdir(dir)
 	symx.FSWriteFile(dir+"/a.go", src)
@@ -250,6 +303,18 @@ func c13Engine(pkgName, src string, toObfuscate bool, id []byte) *listedPackage 
 	sharedCache.GoEnv.GOOS = "linux"
 	sharedCache.GoEnv.GOARCH = "amd64"
 	sharedCache.ListedPackages.entries[lpkg.ImportPath] = lpkg
+	// a second obfuscated package that declares some of the same names
+	symx.FSMkdir(dir + "/other")
+	symx.FSWriteFile(dir+"/other/o.go", c13OtherSrc)
+	other := &listedPackage{
+		Name:            "other",
+		ImportPath:      c13Path + "/other",
+		Dir:             dir + "/other",
+		CompiledGoFiles: []string{"o.go"},
+		ToObfuscate:     true,
+	}
+	copy(other.GarbleActionID[:], id2)
+	sharedCache.ListedPackages.entries[other.ImportPath] = other
 	// what every go list result contains, as far as the code under test looks
 	sharedCache.ListedPackages.entries["unsafe"] = &listedPackage{Name: "unsafe", ImportPath: "unsafe", Standard: true}
 	sharedCache.ListedPackages.entries["runtime"] = &listedPackage{Name: "runtime", ImportPath: "runtime", Standard: true, Imports: []string{"unsafe"}}
@@ -263,7 +328,7 @@ func c13Native(pkgName, src string, toObfuscate bool) (restore func()) {
 	symx.FSWriteFile(dir+"/go.mod", "module "+c13Path+"\n\ngo "+strings.TrimPrefix(runtime.Version(), "go")+"\n")
 	symx.FSWriteFile(dir+"/a.go", src)
 	symx.FSWriteFile(dir+"/t.go", c13Tagged(pkgName))
-	symx.FSWriteFile(dir+"/other/o.go", "package other\n\nfunc O() {}\n")
+	symx.FSWriteFile(dir+"/other/o.go", c13OtherSrc)
 	symx.FSMkdir(symx.FSRoot() + "/cache")
 	wd, _ := os.Getwd()
 	os.Chdir(dir)
@@ -483,9 +548,12 @@ func H_C13_map_build_reverse() {
 	s := srcs[symx.Choose(len(srcs))]
 	toObf := symx.Choose(tier(1, 2)) == 0
 	var lpkg *listedPackage
-	id := symx.Bytes("actionID", 32) // natively go list computes the real one
+	id := symx.Bytes("actionID", 32) // natively go list computes the real ones
+	// the other package's action ID: any ID that differs from this one (in its first byte)
+	id2 := append([]byte{symx.Byte("actionID2")}, id[1:]...)
+	symx.Assume(id2[0] != id[0])
 	if symx.Symbolic() {
-		lpkg = c13Engine(s.pkg, s.src, toObf, id)
+		lpkg = c13Engine(s.pkg, s.src, toObf, id, id2)
 	} else {
 		defer c13Native(s.pkg, s.src, toObf)()
 		defer symx.FSCleanup()
@@ -587,6 +655,7 @@ func H_C13_map_build_reverse() {
 	}
 
 	// (c) garble reverse maps each listed name back to its original
+	listedNames, listedOrig = c13AskOther(listedNames, listedOrig, orig)
 	back, err := c13Reverse(listedNames, listedOrig)
 	if err != nil {
 		symx.Fail("garble reverse failed: " + err.Error())
